@@ -250,7 +250,13 @@ class ContentComparer:
                         else:
                             line, col = l10nent.value_position(pos)
                         # skip error entities when merging
-                        if tp == "error" and merge_file is not None:
+                        if (
+                            tp == "error"
+                            and merge_file is not None
+                            and l10nent not in skips
+                        ):
+                            # an entity can have more than one error,
+                            # skip it just once
                             skips.append(l10nent)
                         self.observers.notify(
                             tp,
